@@ -429,6 +429,9 @@ class S:
         if not self.sym and not o.sym:
             a, b = self.n, o.n
             return {"lt": a < b, "le": a <= b, "gt": a > b, "ge": a >= b, "eq": a == b, "ne": a != b}[kind]
+        if _zsame(self.n, o.n) and _zsame(self.d, o.d):
+            # syntactically the same term
+            return kind in ("le", "ge", "eq")
         r = self - o
         n, d = r.n, r.d
         if isinstance(d, Fraction):
@@ -655,6 +658,12 @@ def ssqrt(x):
     ex = Explorer.cur
     if ex is None:
         raise Inconclusive("sqrt outside exploration")
+    if any(k == "sqrt" for k, _i, _o in ex.plants):
+        pl = ex.lookup_plant("sqrt", np.asarray([x], dtype=object))
+        if pl is not None:
+            if isinstance(pl, np.ndarray):
+                pl = pl.reshape(-1)[0]
+            return pl
     # congruence memo: the same radicand gives the same root variable
     for (pn, pd, pv, _fp) in ex.sqrts:
         if _zsame(pn, x.n) and _zsame(pd, x.d):
@@ -1130,10 +1139,23 @@ class Explorer:
             if k != kind or pin.shape != inp.shape:
                 continue
             cs = []
+            differ = False
             for x, y in zip(pin.reshape(-1), inp.reshape(-1)):
+                if isinstance(x, S) and isinstance(y, S) and not x.isinf and not y.isinf:
+                    fx = (fingerprint(x.n), fingerprint(x.d), fingerprint(y.n), fingerprint(y.d))
+                    if None not in fx and fx[1] != 0 and fx[3] != 0 and fx[0] / fx[1] != fx[2] / fx[3]:
+                        differ = True     # different at a sample point: certainly not the planted input
+                        break
                 e = (x == y)
+                if isinstance(e, (bool, np.bool_)):
+                    if not e:
+                        differ = True
+                        break
+                    continue
                 cs.append(_b(e))
-            if self.prove(z3.And(*cs), kind="plant")[0] == "proved":
+            if differ:
+                continue
+            if all(self.prove(c, kind="plant")[0] == "proved" for c in cs):
                 self.plant_hits += 1
                 return pout
         return None
